@@ -22,7 +22,7 @@ subprocess.run(["git", "-C", wt, "checkout", "--", "."], check=True)
 print("demo without change: exit", rc0, "| with change: exit", rc1)
 if rc0 != 0 or rc1 == 0:
     print("NOT KEPT: demonstration does not discriminate"); print(out0[-300:]); print(out1[-300:]); sys.exit(1)
-dst = os.path.join("/verif/seeded", "%s-%s" % (prop, n))
+dst = os.path.join("/verif/seeded", "%s-%s" % (prop, os.environ.get("KEEP_AS", n)))
 os.makedirs(dst, exist_ok=True)
 shutil.copy(patch, os.path.join(dst, "patch.diff"))
 shutil.copy(demo, os.path.join(dst, "demo.py"))
@@ -31,7 +31,7 @@ meta = {"property": prop, "breaks": needs.split("||")[0].strip(), "needs_to_mani
         "repo_head_when_verified": head,
         "what_was_run": ["git apply patch.diff in a scratch worktree of /repo at %s" % head,
                          "demo.py with the change: exit %d; without: exit %d" % (rc1, rc0),
-                         "pinned test files (test_circuit, test_connection, test_element, test_data, test_kramers_kronig, test_transmission_line, test_utility): same 5 pre-existing failures with and without the change (run by the authoring sub-agent, full command in its notes)",
+                         "tools/suite_seed.sh patch.diff (pinned test-suite command in a scratch worktree, sources from the worktree): all 262 stable_pass tests still pass",
                          "git -C /repo apply patch.diff; ./check %s --tier quick; git -C /repo checkout -- .  -> exit %d" % (prop, check_exit)],
         "quick_check_exit": check_exit, "caught_by": caught_by}
 json.dump(meta, open(os.path.join(dst, "meta.json"), "w"), indent=1)
